@@ -509,12 +509,15 @@ func (r *reporter) reportCopyMetric(
 	bucket string,
 	bucketID string,
 ) {
+	verifYield("m3.report:enter")
 	r.pending.Inc()
 	defer r.pending.Dec()
+	verifYield("m3.report:pending-inc")
 
 	if r.done.Load() {
 		return
 	}
+	verifYield("m3.report:done-checked")
 
 	m.Timestamp = r.now.Load()
 
@@ -526,6 +529,7 @@ func (r *reporter) reportCopyMetric(
 		bucketID: bucketID,
 	}
 
+	verifYield("m3.report:before-send")
 	select {
 	case r.metCh <- sm:
 	case <-r.donech:
@@ -534,14 +538,18 @@ func (r *reporter) reportCopyMetric(
 
 // Flush sends an empty sizedMetric to signal a flush.
 func (r *reporter) Flush() {
+	verifYield("m3.flush:enter")
 	r.pending.Inc()
 	defer r.pending.Dec()
+	verifYield("m3.flush:pending-inc")
 
 	if r.done.Load() {
 		return
 	}
+	verifYield("m3.flush:done-checked")
 
 	r.reportInternalMetrics()
+	verifYield("m3.flush:before-send")
 	r.metCh <- sizedMetric{}
 }
 
@@ -550,14 +558,19 @@ func (r *reporter) Close() (err error) {
 	if !r.done.CAS(false, true) {
 		return errAlreadyClosed
 	}
+	verifYield("m3.close:cas-won")
 
 	// Wait for any pending reports to complete.
 	for r.pending.Load() > 0 {
+		verifYield("m3.close:spin")
 		runtime.Gosched()
 	}
+	verifYield("m3.close:drained")
 
 	close(r.donech)
+	verifYield("m3.close:donech-closed")
 	close(r.metCh)
+	verifYield("m3.close:metch-closed")
 	r.wg.Wait()
 
 	return nil
@@ -627,6 +640,7 @@ func (r *reporter) process() {
 
 		mets = append(mets, m)
 		bytes += smet.size
+		verifNoteCharged(smet.size, &mets[len(mets)-1])
 	}
 
 	// Final flush
@@ -639,6 +653,7 @@ func (r *reporter) flush(mets []m3thrift.Metric) []m3thrift.Metric {
 	}
 
 	r.numBatches.Inc()
+	verifNoteBatch(mets, r.commonTags, r.freeBytes, r.overheadBytes)
 
 	err := r.client.EmitMetricBatchV2(m3thrift.MetricBatch{
 		Metrics:    mets,
